@@ -329,7 +329,90 @@ def para_wire(rng, line, flags):
     flush()
     while depth:
         out.append("x"); depth -= 1
+    if flags.get("ruby") and rng.random() < 0.35:
+        out = ruby_wrap(rng, out)
+    if flags.get("shapes") and rng.random() < 0.08:
+        # a drawing object anchored as a character
+        out.insert(rng.randrange(0, len(out) + 1), "h" + shape_wire(rng))
     return "+".join(out)
+
+INDENT = ["\n", "\n  ", "\n    ", " ", "\n\t", "\r\n   ", "\n      ", "  \n  "]
+RUBY_READINGS = ["\u304b\u3093\u3058", "kanji", "a&b", " ", "<rt>", "\u30d5\u30ea\u30ac\u30ca"]
+
+def ruby_wrap(rng, out):
+    """put a run of pieces that does not cut a span into a phonetic guide:
+    <text:ruby><text:ruby-base>pieces</text:ruby-base><text:ruby-text>reading</text:ruby-text></text:ruby>"""
+    depth, ok = 0, [0]
+    for i, pc in enumerate(out):
+        if pc.startswith("o"):
+            depth += 1
+        elif pc == "x":
+            depth -= 1
+        ok.append(depth)
+    i = rng.randrange(0, len(out) + 1)
+    cand = [j for j in range(i, len(out) + 1)
+            if ok[j] == ok[i] and all(d >= ok[i] for d in ok[i:j + 1])]
+    j = rng.choice(cand)
+    reading = rng.choice(RUBY_READINGS)
+    rt = [T(reading)] if rng.random() < 0.8 else [T(reading[:1]), C(reading[1:].replace("]]>", "")), O]
+    if rng.random() < 0.1:
+        rt = []
+    rtp = "y" + (hx("Ru1") if rng.random() < 0.5 else "") + "~" + wire(rt)
+    k = rng.random()
+    if k < 0.8:
+        mid = ["R" + hx("Ru1"), "A"] + out[i:j] + ["a", rtp, "r"]
+    elif k < 0.9:
+        mid = ["R" + hx("Ru1"), rtp, "A"] + out[i:j] + ["a", "r"]      # reading first
+    else:
+        mid = out[i:j] + [rtp]                                          # a bare text:ruby-text
+    return out[:i] + mid + out[j:]
+
+def shape_parts(rng, depth=0):
+    """(name, attrs, body events) of a drawing object as LibreOffice / Excel write them into a
+    cell: image, custom shape with text, text box, line, group (nested), 3-D scene, control"""
+    def para(t=None):
+        t = gen_string(rng, maxlen=4) if t is None else t
+        return [S("text:p")] + ([T(t)] if t else []) + [E("text:p")]
+    ws = (lambda: [T(rng.choice(INDENT))]) if rng.random() < 0.4 else (lambda: [])
+    geo = [("svg:width", "3cm"), ("svg:height", "2cm"), ("svg:x", "0.1cm"), ("svg:y", "0cm")]
+    anchor = [("table:end-cell-address", "S.C4"), ("table:end-x", "0.7cm"), ("draw:z-index", str(rng.randrange(9)))]
+    attrs = rng.sample(anchor, rng.randrange(0, 3)) + [("draw:name", rng.choice(["Image 1", "Shape <2>", "Box&"]))] + geo
+    k = rng.random()
+    if k < 0.22:
+        img = [S("draw:image", [("xlink:href", "Pictures/1.png"), ("xlink:type", "simple")])] + \
+              (para("") if rng.random() < 0.7 else []) + [E("draw:image")]
+        body = ws() + img + (ws() + [S("svg:title"), T("alt text"), E("svg:title")] if rng.random() < 0.3 else []) + ws()
+        return "draw:frame", attrs, body
+    if k < 0.45:
+        body = ws()
+        for _ in range(rng.randrange(0, 3)):
+            body += para() + ws()
+        body += [S("draw:enhanced-geometry", [("draw:type", "rectangle")]), E("draw:enhanced-geometry")] + ws()
+        return "draw:custom-shape", attrs, body
+    if k < 0.68:
+        inner = ws()
+        for _ in range(rng.randrange(1, 4)):
+            inner += para() + ws()
+        if rng.random() < 0.2:
+            inner += [S("text:list"), S("text:list-item")] + para() + [E("text:list-item"), E("text:list")]
+        body = ws() + [S("draw:text-box")] + inner + [E("draw:text-box")] + ws()
+        return "draw:frame", attrs, body
+    if k < 0.76:
+        name = rng.choice(["draw:line", "draw:rect", "draw:ellipse", "draw:connector", "draw:control", "draw:caption"])
+        return name, attrs, (para() if rng.random() < 0.5 else [])
+    if k < 0.92 and depth < 3:
+        body = ws()
+        for _ in range(rng.randrange(1, 4)):
+            n, a, b = shape_parts(rng, depth + 1)
+            body += [S(n, a)] + b + [E(n)] + ws()
+        return "draw:g", attrs[:2], body
+    body = [S("dr3d:light", [("dr3d:direction", "(1 1 1)")]), E("dr3d:light"),
+            S("dr3d:cube"), E("dr3d:cube")] + (para() if rng.random() < 0.3 else [])
+    return "dr3d:scene", attrs, body
+
+def shape_wire(rng):
+    n, a, b = shape_parts(rng)
+    return hx(n) + "~" + ",".join("%s=%s" % (hx(k), hx(v)) for k, v in a) + "~" + wire(b)
 
 ANNOT = [
     [],
@@ -365,7 +448,26 @@ def content_wire(rng, s, flags):
     if s == "" and rng.random() < 0.5:
         items = []                                    # <table:table-cell office:value-type="string"/>
     if rng.random() < 0.2:
-        items.insert(rng.randrange(0, len(items) + 1), "n" + wire(rng.choice(ANNOT)))
+        # LibreOffice writes the annotation first; any position is read alike
+        items.insert(0 if rng.random() < 0.6 else rng.randrange(0, len(items) + 1), "n" + wire(rng.choice(ANNOT)))
+    if flags.get("shapes") and rng.random() < 0.45:
+        # drawing objects anchored to the cell: after the paragraphs (LibreOffice), rarely elsewhere
+        for _ in range(rng.choice([1, 1, 1, 2, 3])):
+            pos = len(items) if rng.random() < 0.8 else rng.randrange(0, len(items) + 1)
+            items.insert(pos, "h" + shape_wire(rng))
+    if rng.random() < 0.1:
+        items.insert(rng.randrange(0, len(items) + 1), "k")          # a comment between the children
+    if flags.get("indent") and items:
+        # an indented file: white space before, between and after the children of the cell
+        ind = rng.choice(INDENT)
+        out = []
+        for it in items:
+            if rng.random() < 0.93:
+                out.append("w" + hx(ind if rng.random() < 0.8 else rng.choice(INDENT)))
+            out.append(it)
+        if rng.random() < 0.93:
+            out.append("w" + hx(rng.choice(INDENT)))
+        items = out
     return "!".join(items)
 
 EXTRA = [("table:style-name", "ce1"), ("calcext:value-type", "string"), ("table:number-columns-spanned", "1"),
@@ -373,7 +475,8 @@ EXTRA = [("table:style-name", "ce1"), ("calcext:value-type", "string"), ("table:
 
 def gen_ods_case(rng, big=False):
     flags = {"tab": rng.random() < 0.6, "break": rng.random() < 0.5,
-             "cdata": rng.choice([0.0, 0.0, 0.0, 0.3, 0.7, 1.0])}
+             "cdata": rng.choice([0.0, 0.0, 0.0, 0.3, 0.7, 1.0]),
+             "indent": rng.random() < 0.4, "shapes": rng.random() < 0.5, "ruby": rng.random() < 0.3}
     cells = []
     for _ in range(rng.randrange(1, 9)):
         s = gen_string(rng) if not (big and rng.random() < 0.3) else long_string(rng, rng.choice([32767, 5000]))
@@ -664,6 +767,15 @@ def run_ods_batch(ctx, cases, tag):
             ctx.count("ods:cdata-sections", ncd)
         ntab = sum(1 for _, _, ev in cells for e in ev if e[0] == "S" and e[1] == "text:tab")
         nbrk = sum(1 for _, _, ev in cells for e in ev if e[0] == "S" and e[1] == "text:line-break")
+        nshape = sum(1 for _, _, ev in cells for e in ev if e[0] == "S" and e[1].startswith(("draw:", "dr3d:")))
+        nruby = sum(1 for _, _, ev in cells for e in ev if e[0] == "S" and e[1] == "text:ruby-text")
+        nind = sum(1 for cw in line.split("\t")[3].split("|") for it in cw.split(";")[2][1:].split("!") if it.startswith("w"))
+        if nshape:
+            ctx.count("ods:file-with-drawing-object"); ctx.count("ods:drawing-object-elements", nshape)
+        if nruby:
+            ctx.count("ods:file-with-ruby"); ctx.count("ods:ruby-text-elements", nruby)
+        if nind:
+            ctx.count("ods:file-with-indented-cell"); ctx.count("ods:indentation-text-nodes", nind)
         if ntab:
             ctx.count("ods:file-with-text-tab"); ctx.count("ods:text-tab-elements", ntab)
         if nbrk:
@@ -826,6 +938,23 @@ def raw_ods_cases(rng, n):
                 ev += para()
                 if rng.random() < 0.15:
                     ev.append(T(rng.choice([" ", "\n", "x"])))               # text between paragraphs
+                k2 = rng.random()
+                if k2 < 0.12:
+                    # a drawing object between the paragraphs: same-name nesting, a start tag of
+                    # its name without end tag (the rest of the cell is swallowed: Eof -> error)
+                    n = rng.choice(["draw:g", "draw:frame", "dr3d:scene", "draw:", "drawx", "text:ruby-text"])
+                    inner = [S(n)] + para() + [E(n)] if rng.random() < 0.5 else para()
+                    if rng.random() < 0.85:
+                        ev += [S(n)] + inner + [T("t"), E(n)]
+                    else:
+                        # never closed (the name occurs nowhere else in the file)
+                        ev += [S("draw:unclosed")] + inner + [T("t")]
+                elif k2 < 0.18:
+                    # an end tag text:p that closes something else (quick-xml does not compare
+                    # the names: check_end_names = false): no paragraph is open
+                    ev += [S("text:span"), T("q"), E("text:p")]
+                elif k2 < 0.24:
+                    ev += [C("cd"), S("text:s"), E("text:s"), S("text:tab"), E("text:tab")]   # outside any paragraph
             ev.append(E(name))
             cells.append((name, attrs, ev))
         cases.append(cells)
@@ -1283,6 +1412,27 @@ def corpus(ctx):
         ["a;;cp" + "s" + hx("3") + "+l" + hx("a ") + "+s+l" + hx("b") + "+s" + hx("0") + "!p!p" + "l" + hx("c"),
          "c;" + hx("table:style-name") + "=" + hx("ce1") + ";a" + hx(" a&<b>\n") + "/pl" + hx("shown"),
          "a;;c", "a;;cn" + wire(ANNOT[1]) + "!pl" + hx("t")],
+        # was ODS-1 (notes/AUDIT2.md): an image, a custom shape with text, a text box with two
+        # paragraphs, a group inside a group anchored to the cell, after its paragraph
+        ["a;;cp" + "l" + hx("abc") + "!h" + hx("draw:frame") + "~" + hx("draw:name") + "=" + hx("Image 1") + "~" +
+            wire([S("draw:image", [("xlink:href", "Pictures/1.jpg")]), S("text:p"), E("text:p"), E("draw:image")]),
+         "a;;cp" + "l" + hx("abc") + "!h" + hx("draw:custom-shape") + "~~" +
+            wire([S("text:p"), T("Shape text"), E("text:p"), S("draw:enhanced-geometry"), E("draw:enhanced-geometry")]),
+         "a;;cp" + "l" + hx("abc") + "!h" + hx("draw:frame") + "~~" +
+            wire([S("draw:text-box"), S("text:p"), T("Box line 1"), E("text:p"), S("text:p"), T("Box line 2"), E("text:p"), E("draw:text-box")]),
+         "a;;cn" + wire(ANNOT[1]) + "!pl" + hx("abc") + "!h" + hx("draw:g") + "~~" +
+            wire([S("draw:g"), S("draw:rect"), S("text:p"), T("r"), E("text:p"), E("draw:rect"), E("draw:g"), S("text:p"), T("g"), E("text:p")])
+            + "!pl" + hx("second")],
+        # was ODS-3: an indented cell (and a comment between its children); white space INSIDE a
+        # paragraph or a span is content (the opposite mistake, seed C19-H)
+        ["a;;cw" + hx("\n     ") + "!pl" + hx("abc") + "!w" + hx("\n    "),
+         "a;;cw" + hx("\n  ") + "!pl" + hx("l1") + "!w" + hx("\n  ") + "!k!w" + hx("\n  ") + "!pl" + hx("l2") + "!w" + hx("\n"),
+         "a;;cp" + "o" + hx("T1") + "+l" + hx("bold") + "+x+l" + hx(" ") + "+o" + hx("T2") + "+l" + hx("italic") + "+x",
+         "a;;cp" + "l" + hx(" ") + "!pl" + hx("\n  ") + "!p" + "o" + hx("T1") + "+l" + hx("\t") + "+x+s+l" + hx(" ")],
+        # was ODS-4: a phonetic guide; only the base is cell text
+        ["a;;cp" + "R" + hx("Ru1") + "+A+l" + hx("\u6f22\u5b57") + "+a+y~" + wire([T("\u304b\u3093\u3058")]) + "+r",
+         "a;;cp" + "l" + hx("x") + "+R" + hx("Ru1") + "+A+o" + hx("T1") + "+l" + hx("ba") + "+x+s+l" + hx("se") + "+a+y" + hx("Ru2") + "~" +
+            wire([T("r"), C("t")]) + "+r+l" + hx("y")],
     ]
     run_ods_batch(ctx, ocases, "ko")
     # binary regressions: U+FEFF first (BOM sniffing, repaired by 98c2838), U+FFFE first, EF BB BF
